@@ -166,8 +166,12 @@ def handle_exception(
             exception,
         )
 
-        # Get attempt count from message (0-indexed) and increment
-        current_attempts = message.attempts or 0
+        # Transient retries so far.  The count travels in the message's
+        # retry_count field: `attempts` is queue metadata that is reset to the
+        # delivery count of the new row on every re-queue (and stripped from
+        # the payload on deserialization), so a retry always arrived with
+        # attempts == 1 and the limit below was never reached.
+        current_attempts = max(message.retry_count or 0, 0)
         max_attempts = message.max_attempts or 10
 
         if current_attempts + 1 < max_attempts:
@@ -221,6 +225,7 @@ def _handle_transient_retry(
 
     # Create new message with incremented attempt count
     retry_message = message.copy_with_attempts(next_attempt)
+    retry_message.retry_count = next_attempt
 
     # Check for context_update from TransientError (stateful retries)
     # Note: bulkman wraps exceptions in BulkheadError, so we need to
